@@ -65,16 +65,21 @@ def gen_region(rnd, ax, n, nice=False):
     """(start, width) in DIM units, chosen on / between / outside the stored samples"""
     c = coords(ax, n)
     if ax.get("decimal"):
-        # positions the way a user writes them: j * 0.1 + offset evaluated in floating point (a hair off the sample)
-        fo = float(ax["off"] or 0)
-        fi = float(ax["itv"])
+        # positions the way a user writes them: the decimal literal (0.3, not 3 * 0.1), i.e. the float nearest to the
+        # exact decimal - a hair above or below the sample as the dimension computes it
+        from decimal import Decimal
+        di = Decimal(repr(float(ax["itv"])))
+        do = Decimal(repr(float(ax["off"] or 0)))
+
+        def lit(j2):
+            return F(float(j2 * di + do))
         j = rnd.randrange(n)
-        start = F(j * fi + fo) if rnd.random() < 0.7 else F((j + 0.5) * fi + fo)
+        start = lit(j) if rnd.random() < 0.7 else lit(Decimal(j) + Decimal("0.5"))
         k = rnd.random()
         if k < 0.4:
             return start, None
         j2 = rnd.randrange(j, n)
-        stop = F(j2 * fi + fo) if rnd.random() < 0.7 else F((j2 + 0.5) * fi + fo)
+        stop = lit(j2) if rnd.random() < 0.7 else lit(Decimal(j2) + Decimal("0.5"))
         return start, F(float(stop) - float(start)) if stop >= start else F(0)
     step = ax["itv"] if ax["kind"] == "sampled" else (ax["g"] if ax["kind"] == "range" else F(1))
     k = rnd.random()
